@@ -220,7 +220,10 @@ class SecondsTimedeltaProvider(MorphingProvider):
         def timedelta_loader(data):
             if type(data) not in ok_types:
                 raise TypeLoadError(Union[int, float, Decimal], data)
-            return timedelta(seconds=int(data), microseconds=int(data % 1 * 10 ** 6))
+            try:
+                return timedelta(seconds=int(data), microseconds=int(data % 1 * 10 ** 6))
+            except (ValueError, ArithmeticError) as e:  # nan, infinity, values out of the timedelta range
+                raise ValueLoadError(str(e), data)
 
         return timedelta_loader
 
